@@ -9,7 +9,7 @@
      * concrete refutations of the parts that are false (with the classifier of the known finding);
      * the full-strength statement as a plain definition, so that the target stays visible.
    Pinned statements only: each theorem is closed by [exact] of a lemma proved in Proofs/. *)
-From VV.M1 Require Import Diff Validate Oracles KahnP CreateOnlyP.
+From VV.M1 Require Import Diff Validate Oracles KahnP CreateOnlyP CreateDropP.
 From Coq Require Import Permutation.
 
 (* ---------- the full-strength target (a definition, NOT a claim: it is refuted below) ---------- *)
@@ -206,6 +206,38 @@ Check C06_core_partial : forall T,
   (exists acts, diff_actions [] T = Ok acts) ->
   plan_stepwise_ok [] T = true.
 
+(* ---------- the whole property on the sub-class "tables are only added and removed" ---------- *)
+(* PARTIAL: missing is every plan that alters a table common to baseline and target (where D1, D2 and the other
+   known classes live).  Hypotheses: the baseline is a consistent normalisation fix-point (as replay produces),
+   the common tables have the same columns and constraints in baseline and normalised target, the planner returns
+   a plan (no FK cycle among the new tables), the dropped tables have no FK cycle (rank).  That no surviving
+   table references a dropped one follows from these.  The plan is then creations in FK order followed by drops
+   in reverse FK order, and every prefix of it is a consistent schema. *)
+Theorem C06_core_partial2 : forall B T acts (rank : string -> nat),
+  (forall b, In b B -> normalize b = Ok b) ->
+  consistent B = true ->
+  loader_accepts T = true ->
+  (forall Tn b n, normalize_all T = Ok Tn -> In b B -> In n Tn -> t_name b = t_name n ->
+     t_columns b = t_columns n /\ t_constraints b = t_constraints n) ->
+  diff_actions B T = Ok acts ->
+  (forall b rt, In b B -> ~ In (t_name b) (map t_name T) -> In rt (fk_targets b) -> rt <> t_name b ->
+     In rt (map t_name B) -> ~ In rt (map t_name T) -> rank rt < rank (t_name b)) ->
+  (forall a, In a acts -> match a with CreateTable _ _ _ => true | _ => false end = true \/ is_delete_table a = true) /\
+  plan_stepwise_ok B T = true.
+Proof. exact CreateDropP.C06_core_partial2. Qed.
+Print Assumptions C06_core_partial2.
+Check C06_core_partial2 : forall B T acts (rank : string -> nat),
+  (forall b, In b B -> normalize b = Ok b) ->
+  consistent B = true ->
+  loader_accepts T = true ->
+  (forall Tn b n, normalize_all T = Ok Tn -> In b B -> In n Tn -> t_name b = t_name n ->
+     t_columns b = t_columns n /\ t_constraints b = t_constraints n) ->
+  diff_actions B T = Ok acts ->
+  (forall b rt, In b B -> ~ In (t_name b) (map t_name T) -> In rt (fk_targets b) -> rt <> t_name b ->
+     In rt (map t_name B) -> ~ In rt (map t_name T) -> rank rt < rank (t_name b)) ->
+  (forall a, In a acts -> match a with CreateTable _ _ _ => true | _ => false end = true \/ is_delete_table a = true) /\
+  plan_stepwise_ok B T = true.
+
 (* ---------- refutations (R): the planner really emits these plans ---------- *)
 (* D2: DeleteTable is emitted before the RemoveConstraint of a surviving table's FK to it *)
 Theorem C06_delete_before_remove_fk_refuted :
@@ -314,3 +346,11 @@ Example C06_diff_deletes_nonvacuous :
                   mkTable "c" None [w_pkcol "id"; w_fkcol "b_id" "b.id"] []] [] = Ok acts /\
     map delete_name (filter is_delete_table acts) = ["c"; "b"; "a"].
 Proof. eexists. split; vm_compute; reflexivity. Qed.
+
+(* drop c -> b, keep user, add post -> user: the plan is [CreateTable post; DeleteTable c; DeleteTable b] *)
+Example C06_core_partial2_nonvacuous :
+  (forall b, In b w_cd_B -> normalize b = Ok b) /\ consistent w_cd_B = true /\ loader_accepts w_cd_T = true /\
+  (exists acts, diff_actions w_cd_B w_cd_T = Ok acts /\ List.length acts = 3 /\
+                created_tables acts = ["post"] /\ map delete_name (filter is_delete_table acts) = ["c"; "b"]) /\
+  plan_stepwise_ok w_cd_B w_cd_T = true.
+Proof. exact CreateDropP.C06_core_partial2_nonvacuous. Qed.
